@@ -270,7 +270,12 @@ impl<'a> ExprAST<'a> {
                     "false".into()
                 }
             }
-            String(value) => "\"".to_string() + &value + "\"",
+            String(value) => {
+                // no escape sequences exist: a string containing `"` can only have
+                // been written with single quotes, so render it that way
+                let quote = if value.contains('"') { "'" } else { "\"" };
+                quote.to_string() + &value + quote
+            }
         }
     }
 
@@ -292,35 +297,56 @@ impl<'a> ExprAST<'a> {
     }
 
     fn unary_expr(&self, op: &'a str, rhs: &ExprAST) -> String {
-        op.to_string() + " " + &rhs.expr()
+        // a prefix operator applies to a primary: compound operands need parentheses
+        let operand = match rhs {
+            ExprAST::Binary(..) | ExprAST::Ternary(..) => rhs.paren_expr(),
+            _ => rhs.expr(),
+        };
+        op.to_string() + " " + &operand
     }
 
     fn binary_expr(&self, op: &'a str, lhs: &ExprAST, rhs: &ExprAST) -> String {
-        let left = {
-            let (is, precidence) = lhs.get_precidence();
-            let mut tmp: String = lhs.expr();
-            if is && precidence < InfixOpManager::new().get_precidence(op) {
-                tmp = "(".to_string() + &lhs.expr() + &")".to_string();
-            }
-            tmp
+        let (l_bp, r_bp) = InfixOpManager::new().get_precidence(op);
+        // `a C b op c` groups as `(a C b) op c` unless C's right binding power is
+        // below op's left binding power
+        let left = match lhs {
+            ExprAST::Ternary(..) => lhs.paren_expr(),
+            ExprAST::Binary(..) if (lhs.get_precidence().1).1 < l_bp => lhs.paren_expr(),
+            _ => lhs.expr(),
         };
-        let right = {
-            let (is, precidence) = rhs.get_precidence();
-            let mut tmp = rhs.expr();
-            if is && precidence < InfixOpManager::new().get_precidence(op) {
-                tmp = "(".to_string() + &rhs.expr() + &")".to_string();
-            }
-            tmp
+        // `a op b C c` groups as `a op (b C c)` only if op's right binding power is
+        // below C's left binding power
+        let right = match rhs {
+            ExprAST::Ternary(..) => rhs.paren_expr(),
+            ExprAST::Binary(..) if (rhs.get_precidence().1).0 <= r_bp => rhs.paren_expr(),
+            _ => rhs.expr(),
         };
         left + " " + op + " " + &right
     }
 
     fn postfix_expr(&self, lhs: &ExprAST, op: &str) -> String {
-        lhs.expr() + " " + op
+        // a postfix operator applies to an atom: anything else needs parentheses
+        let operand = match lhs {
+            ExprAST::Binary(..) | ExprAST::Unary(..) | ExprAST::Postfix(..) | ExprAST::Ternary(..) => {
+                lhs.paren_expr()
+            }
+            _ => lhs.expr(),
+        };
+        operand + " " + op
     }
 
     fn ternary_expr(&self, condition: &ExprAST, lhs: &ExprAST, rhs: &ExprAST) -> String {
-        condition.expr() + " ? " + &lhs.expr() + " : " + &rhs.expr()
+        // conditionals nest to the right: only a conditional used as the condition
+        // needs parentheses
+        let cond = match condition {
+            ExprAST::Ternary(..) => condition.paren_expr(),
+            _ => condition.expr(),
+        };
+        cond + " ? " + &lhs.expr() + " : " + &rhs.expr()
+    }
+
+    fn paren_expr(&self) -> String {
+        "(".to_string() + &self.expr() + ")"
     }
 
     fn list_expr(&self, params: Vec<ExprAST>) -> String {
